@@ -43,16 +43,20 @@ structure CDecl where
   good : Bool
   wfail : Option Nat
   descs : List Desc
+  credit : Nat := 1000000
 
 def parseDecl (t : String) : Option CDecl :=
   match t.splitOn ":" with
   | [i, g, w, ds] =>
     some { id := i.toNat!, good := g == "g", wfail := if w = "-" then none else some w.toNat!,
            descs := if ds = "-" then [] else (ds.splitOn ",").map parseDesc }
+  | [i, g, w, ds, cr] =>
+    some { id := i.toNat!, good := g == "g", wfail := if w = "-" then none else some w.toNat!,
+           descs := if ds = "-" then [] else (ds.splitOn ",").map parseDesc, credit := cr.toNat! }
   | _ => none
 
 def mkConn (C : Consts) (d : CDecl) : Conn :=
-  { id := d.id, rx := Rx.init C, net := net0, calls := d.descs, out := [], wfail := d.wfail, nwrites := 0,
+  { id := d.id, rx := Rx.init C, net := net0, calls := d.descs, out := [], wfail := d.wfail, nwrites := 0, credit := d.credit,
     good := d.good, frames := [], descs := d.descs, fut := [], k := 0 }
 
 def parseEv (C : Consts) (decls : List CDecl) (t : String) : Option Srv.Ev :=
@@ -67,6 +71,10 @@ def parseEv (C : Consts) (decls : List CDecl) (t : String) : Option Srv.Ev :=
     match (String.ofList r).splitOn ":" with
     | [i, b] => some (.arrive i.toNat! (decBytes b))
     | _ => none
+  | 'k' :: r =>
+    match (String.ofList r).splitOn ":" with
+    | [i, n] => some (.produce i.toNat! n.toNat!)
+    | _ => none
   | _ => none
 
 /-- was everything of connection `i` delivered, with a server poll after the last event touching it? -/
@@ -74,11 +82,20 @@ def completeFor (es : List String) (i : Nat) : Bool :=
   let touches (t : String) : Bool :=
     match t.toList with
     | 'a' :: r => ((String.ofList r).splitOn ":").head? == some (toString i)
+    | 'k' :: r => ((String.ofList r).splitOn ":").head? == some (toString i)
     | 'c' :: r => String.ofList r == toString i
     | _ => false
   let rev := es.reverse
   let afterLast := rev.takeWhile (fun t => !touches t)
   afterLast.contains "p"
+
+/-- results the service's streams for client `i` were allowed to hand over in total -/
+def creditFor (es : List String) (i : Nat) : Nat :=
+  es.foldl (fun acc t => match t.toList with
+    | 'k' :: r => match (String.ofList r).splitOn ":" with
+      | [j, n] => if j == toString i then acc + n.toNat! else acc
+      | _ => acc
+    | _ => acc) 0
 
 def handle (ts : List String) : String :=
   let (_, r0) := splitAt "D" ts
@@ -88,7 +105,10 @@ def handle (ts : List String) : String :=
   match ds.mapM parseDecl with
   | none => "bad-decl"
   | some decls =>
-    match es.mapM (parseEv C decls) with
+    -- a grant that precedes the hand-over of its connection to the listener is part of that connection's
+    -- initial allowance (the service's counter exists before the connection does)
+    let declsAt (k : Nat) : List CDecl := decls.map fun d => { d with credit := d.credit + creditFor (es.take k) d.id }
+    match (es.zipIdx.mapM fun (t, k) => parseEv C (declsAt k) t) with
     | none => "bad-event"
     | some evs =>
       let s := runEvs C (fun _ => 1000000000) evs Srv.init
@@ -114,10 +134,10 @@ def handle (ts : List String) : String :=
           | _ => none
       let h := (ox == ["alive"]) && decls.all fun d =>
         -- complete frames only are scripted; a connection cut mid-burst or with a transport fault is not `good`
-        SpecSrv.connOK d.good (completeFor es d.id) d.descs (implOut d.id) (implServed d.id)
+        SpecSrv.connOK d.good (completeFor es d.id) (d.credit + creditFor es d.id) d.descs (implOut d.id) (implServed d.id)
       let logIds : List Nat := olog.filterMap fun t => (t.splitOn ":").head?.map String.toNat!
       let total (i : Nat) : Nat := match decls.find? (·.id == i) with
-        | some d => (SpecSrv.refServed d.descs).length
+        | some d => (SpecSrv.refServedCredit (d.credit + creditFor es d.id) d.descs).length
         | none => 0
       let h := h && (!(ts.contains "F1") || SpecSrv.fairOK total (decls.map (·.id)) logIds)
       "M" ++ m ++ " | H " ++ (if h then "1" else "0")
